@@ -172,23 +172,36 @@ def plan(pid: str, tier: str, seed: int) -> dict:
         )
     if pid == "C05":
         progs = [p for p in core + extra if p["name"] != "stopped"] + [PR.by_name(n) for n in SYN] + \
-                [p for p in join_family() if p["name"] in ("firstofslow", "firstofallfail", "quorumimpossible", "mmfail", "deep")]
+                [p for p in join_family() if p["name"] in ("firstofslow", "firstofallfail", "quorumimpossible", "mmfail", "deep")] + \
+                PR.region_family()
         nseed = 20 if quick else 300
         return dict(
             progs=progs, props=["C05_QuietMeansDone", "C05_SucceededIsHonest", "C05_FailureReported",
                                 "C05_NoRunningInFinished"],
             jobs=lambda refs: [{"kind": "schedule", "prog": p, "seeds": s, "opts": {"p_withhold": 0.2}}
-                               for p in progs for s in chunks(range(seed * 1000, seed * 1000 + nseed), 10)],
+                               for p in progs for s in chunks(range(seed * 1000, seed * 1000 + nseed), 10)]
+                              # cancel regions (WCP-25): a CancelRegion before every delivery step, in order and shuffled
+                              + [{"kind": "inject", "prog": p, "what": "region:r", "at": at}
+                                 for p in progs if p["name"].startswith("region")
+                                 for at in chunks(range(1, refs[p["name"]]["steps"] + 2), 12)]
+                              + [{"kind": "schedule", "prog": p, "seeds": [seed * 1000 + at * 7 + i],
+                                  "opts": {"p_withhold": 0.1, "region_at": at}}
+                                 for p in progs if p["name"].startswith("region")
+                                 for at in range(1, refs[p["name"]]["steps"] + 2, 2 if quick else 1)
+                                 for i in range(1 if quick else 4)],
             mc=[(n, {"AnyOrder": "TRUE", "MaxWithhold": 1}, {}) for n in
                 (("failbranch", "termchain", "cof", "selfloop") if quick else
                  ("failbranch", "firstoffail", "termchain", "cof", "selfloop", "mmfail"))]
+               + [("regionlast", {"AnyOrder": "TRUE", "MaxRegions": 1}, {}), ("regionjoin", {"AnyOrder": "FALSE", "MaxRegions": 1}, {})]
+               + ([] if quick else [("regionjoin", {"AnyOrder": "TRUE", "MaxRegions": 1}, {}),
+                                    ("regionlast", {"AnyOrder": "TRUE", "MaxRegions": 2, "MaxWithhold": 1}, {})])
                + [(n, {"AnyOrder": "TRUE"}, {}) for n in ("firstoffail", "mmfail", "quorumfail")]
                + ([] if quick else [(n, {"AnyOrder": "TRUE", "MaxWithhold": 2}, {"depth": 70}) for n in
                                     ("quorumfail", "firstof", "quorumimpossible", "cycle2")]),
         )
     if pid == "C06":
         progs = core + extra + [PR.by_name(n) for n in ("before2", "beforeafter", "afterfail", "siblingfail",
-                                                        "pausepar", "pausechain", "restartjump", "restartplain")]
+                                                        "pausepar", "pausechain", "restartjump", "restartplain")] + PR.region_family()
         nseed = 10 if quick else 100
         return dict(
             progs=progs, props=["C06_Legal", "C06_CompletedIsFinal"],
@@ -199,6 +212,9 @@ def plan(pid: str, tier: str, seed: int) -> dict:
                                  for pts in chunks(range(1, refs[p["name"]]["commits"] + 1, 3 if quick else 1), 24)]
                               + [{"kind": "inject", "prog": p, "what": "cancel", "at": at}
                                  for p in core for at in chunks(range(1, refs[p["name"]]["steps"] + 1, 2), 12)]
+                              + [{"kind": "inject", "prog": p, "what": "region:r", "at": at}
+                                 for p in progs if p["name"].startswith("region")
+                                 for at in chunks(range(1, refs[p["name"]]["steps"] + 2), 12)]
                               + [   # operator actions: pause before every step then unpause (resumes delivered in any order),
                                     # restart of a finished stage (the only legal resurrection besides a jump)
                                  {"kind": "operator", "prog": p, "seeds": [seed * 1000 + at * 3 + v],
